@@ -1,2 +1,95 @@
-/- C03 correspondence driver (stub: replaced when the property's model is built) -/
-def main : IO Unit := IO.println "stub"
+import PnVerif.Model.HeaderText
+import PnVerif.Model.Layout
+/-
+  C03 correspondence driver.  One request per line on stdin, one answer per line on stdout.
+
+    LAYOUT <envH> <envV> <envR> <h_minfree> <v_align> <v_minfree> <r_align> <begin_rec0> <old> <schema>
+        <old> = N                                   (ncp->old == NULL)
+              | O <begin_var> <begin_rec> <n> {<isRec 0|1> <begin>}*n
+        <schema> without layout (begin / vsize fields ignored), numrecs as it stands
+      -> OK <xsz> <begin_var> <begin_rec> <recsize> <h_align> <v_align> <r_align> <n> {<isRec> <len> <begin>}*n | <hex of Hdr.encode>
+         ERR <NC code>
+    ENCL <schema, begin fields set, vsize fields = variable lengths>   -> <hex of Hdr.encode> | ERR code
+    SPEC <hex>    -> Spec.specDecode: OK <schema as stored> | refsOk    or NONE
+
+  schema / hex syntax: PnVerif/Model/HeaderText.lean
+-/
+open PnVerif PnVerif.Spec PnVerif.Header PnVerif.HeaderText PnVerif.Layout
+
+def tOld : TP (Option Old)
+  | "N" :: r => some (none, r)
+  | "O" :: r => do
+    let (bv, r) ← tNat r
+    let (br, r) ← tNat r
+    let (n, r) ← tNat r
+    let (ps, r) ← tMany (fun ts => do
+      let (a, ts) ← tNat ts
+      let (b, ts) ← tNat ts
+      some ((a != 0, b), ts)) n r
+    some (some { beginVar := bv, beginRec := br, vars := ps }, r)
+  | _ => none
+
+def doLayout (ts : List String) : Option String := do
+  let (envH, ts) ← tNat ts
+  let (envV, ts) ← tNat ts
+  let (envR, ts) ← tNat ts
+  let (hMin, ts) ← tNat ts
+  let (argV, ts) ← tNat ts
+  let (vMin, ts) ← tNat ts
+  let (argR, ts) ← tNat ts
+  let (br0, ts) ← tNat ts
+  let (old, ts) ← tOld ts
+  let (h, _) ← tSchema ts
+  match varsOf h with
+  | .error e => some s!"ERR {e.code}"
+  | .ok vars =>
+    -- ncmpio__enddef: num_fix_vars uses the num_rec_vars left by the previous enddef / open
+    let staleRec := match old with
+      | some o => (o.vars.filter (·.1)).length
+      | none => 0
+    let al := resolveAlign envH envV envR hMin argV vMin argR (vars.length - staleRec) old.isSome
+    -- ncmpio_NC_check_vlens precedes NC_begins
+    match checkVlens h.fmt.version ((h.vars.map (fun v => v.xtype.size)).zip
+            (h.vars.map (fun v => match varShape64 h.dims v with | .ok (s, _) => s | .error _ => []))) with
+    | .error e => some s!"ERR {e.code}"
+    | .ok () =>
+    match ncBegins h.fmt (Hdr.len h) vars al br0 old with
+    | .error e => some s!"ERR {e.code}"
+    | .ok L =>
+      let begins := L.begins vars
+      let h' : Hdr := { h with vars := (h.vars.zip begins).map (fun (v, b) => { v with begin := b }) }
+      let lens := vars.map (·.len)
+      let enc := match Hdr.encode h' lens with
+        | .ok b => toHex b
+        | .error e => s!"ENCERR{e.code}"
+      let per := String.intercalate " " ((vars.zip begins).map (fun (v, b) => s!"{if v.isRec then 1 else 0} {v.len} {b}"))
+      some s!"OK {L.xsz} {L.beginVar} {L.beginRec} {L.recsize} {al.hAlign} {al.vAlign} {al.rAlign} {vars.length} {per} | {enc}"
+
+def step (line : String) : String :=
+  match tokens line.trimAscii.toString with
+  | "LAYOUT" :: ts => (doLayout ts).getD "bad-request"
+  | "ENCL" :: ts =>
+    match tSchema ts with
+    | some (h, []) =>
+      match Hdr.encode h (h.vars.map (·.vsize)) with
+      | .ok b => toHex b
+      | .error e => s!"ERR {e.code}"
+    | _ => "bad-schema"
+  | ["SPEC", hex] =>
+    match ofHex hex with
+    | none => "bad-hex"
+    | some file =>
+      match specDecode file with
+      | some d => s!"OK {showSchema d} | {d.refsOk}"
+      | none => "NONE"
+  | _ => "bad-op"
+
+partial def loop (h : IO.FS.Stream) (out : IO.FS.Stream) : IO Unit := do
+  let line ← h.getLine
+  if line.isEmpty then return ()
+  out.putStrLn (step line)
+  loop h out
+
+def main : IO Unit := do
+  let out ← IO.getStdout
+  loop (← IO.getStdin) out
